@@ -37,7 +37,7 @@ def main():
         for i in range(1, 21):
             c = "C%02d" % i
             procs[c] = subprocess.Popen([os.path.join(ROOT, "bin", "check"), c, "--repo", tmp], stdout=subprocess.PIPE, stderr=subprocess.STDOUT, text=True,
-                                        env=dict(os.environ, SIGVERIF_NO_EVIDENCE="1"))
+                                        env=dict(os.environ, SIGVERIF_NO_EVIDENCE="1", SIGVERIF_NO_INHERIT="1"))
         for c, p in procs.items():
             o, _ = p.communicate()
             if p.returncode != 0:
